@@ -34,13 +34,29 @@ def _set(v, pos, val):
     return v[:pos] + '%02d' % val + v[pos + 2:]
 
 
-def _repair(m, t, kw=None):
+def table_check_positions(name, m, t):
+    """Check positions according to the C05 shape table (where the module has a generator row)."""
+    try:
+        from .tables import c05_shapes
+        out = []
+        for gname, shape, opts in c05_shapes.rows(name, m):
+            sh = shape(t)
+            if sh:
+                ps = tuple(p % len(t) for p in sh[1])
+                if len(ps) <= 2 and ps not in out:
+                    out.append(ps)
+        return out
+    except Exception:
+        return []
+
+
+def _repair(m, t, kw=None, extra_positions=()):
     """t itself if accepted, else single repairs at the usual check positions."""
     kw = kw or {}
     out = []
     if e2._accepts(m, t, kw):
         return [t]
-    for ps in e2.default_check_positions(t):
+    for ps in list(extra_positions) + e2.default_check_positions(t):
         if len(ps) == 1:
             p = ps[0]
             for r in D + 'XK' + (e2.same_class(t[p]) if t[p] not in D + 'XK' else ''):
@@ -105,6 +121,14 @@ def date_numbers(name, m, sv, limit=None, today=None, raw=False):
                 for ch in '+-A':
                     if len(t) > 6 and t[6] != ch:
                         variants.append(t[:6] + ch + t[7:])
+            # the digit next to the date block often selects the century / sex: all ten values
+            lo = min(x for x in p if x is not None)
+            hi = max(x for x in p if x is not None) + 2
+            for q in (lo - 1, hi):
+                if 0 <= q < len(t) and t[q] in D:
+                    for c in D:
+                        if c != t[q]:
+                            variants.append(t[:q] + c + t[q + 1:])
             for w in variants:
                 if raw:
                     for c in D:
@@ -141,7 +165,7 @@ class record_numdb:
         self.nd.get = self.orig
 
 
-def _paths(prefixes, depth=3, acc=''):
+def _paths(prefixes, depth=4, acc=''):
     for length, low, high, props, children in prefixes:
         for end in dict.fromkeys((low, high)):
             yield acc + end, props
@@ -203,6 +227,11 @@ def registry_inputs(name, m, sv, limit=600, funcs=('validate',)):
                     if len(v) > off + len(p):
                         cands.append(v[:off] + p + v[off + len(p):])
                 cands.append(p + v)
+                # a valid number that starts with this registry path (check position repaired)
+                if len(v) > len(p) and len(out) < 40000:
+                    t = p + v[len(p):]
+                    for u in _repair(m, t, None, table_check_positions(name, m, t))[:1]:
+                        cands.append(u)
             if pattern:
                 for c in list(cands):
                     a = ''.join(ch for ch in c if ch.isalnum())
@@ -253,4 +282,33 @@ def table_inputs(name, m, sv, limit=1500):
     if len(out) > limit:
         step = len(out) / float(limit)
         out = [out[int(i * step)] for i in range(limit)]
+    return out
+
+
+# ------------------------------------------------------------------------------------------ digit runs
+
+def run_numbers(name, m, sv, limit=120):
+    """Valid numbers with runs of zeros / nines at the head and the tail (suffix and prefix stripping, leading
+    zero handling): the seed with its first / last k characters replaced, check position repaired."""
+    out = []
+    for s_, v in sv[:2]:
+        n = len(v)
+        cands = []
+        for k in range(1, min(7, n)):
+            for ch in '09':
+                if all(c in D for c in v[n - k:]):
+                    cands.append(v[:n - k] + ch * k)
+                if all(c in D for c in v[:k]):
+                    cands.append(ch * k + v[k:])
+                mid = (n - k) // 2
+                if all(c in D for c in v[mid:mid + k]):
+                    cands.append(v[:mid] + ch * k + v[mid + k:])
+        for t in dict.fromkeys(cands):
+            if t == v:
+                continue
+            for u in _repair(m, t, None, table_check_positions(name, m, t)):
+                if u not in out:
+                    out.append(u)
+            if len(out) >= limit:
+                return out
     return out
